@@ -369,7 +369,7 @@ def run(ctx, report):
     from .c12 import state_copy_rule
     state_copy_rule(R14c, [ctx.mod('eval_abs')])
 
-    R17 = report.rule('C07.D17', 'the symbolic machine interpreted from its source on 28 instruction histories (stores that cover, split or abut earlier stores, reads between stores, the '
+    R17 = report.rule('C07.D17', 'the symbolic machine interpreted from its source on 30 instruction histories (stores that cover, split or abut earlier stores, reads between stores, the '
                       'same address at two widths, parallel assignments inside one instruction, an address register updated between store and read): registers and probed cells after the '
                       'history, valued on three initial states, equal the concrete byte-level execution of the same history (shared with C06.D16)', floor=20)
     from .. import machine as _machine
